@@ -145,6 +145,9 @@ type AllocMon struct {
 	OnNewBlock func(b *BlockInfo)
 	SectorSize int
 	ctx        sync.Map // goroutine id -> *BlockInfo (current Get)
+	// CopyGate, if set, is called right before a block writer starts
+	// ingesting data (the unlocked copy phase of uploads and refreshes).
+	CopyGate func()
 }
 
 type blockMon struct {
@@ -289,6 +292,9 @@ func (b *blockMon) Put(size int64) local.BlockPutWriter {
 	b.info.Writers.Add(1)
 	w := b.inner.Put(size)
 	return func(buf buffer.Buffer) local.BlockPutFinalizer {
+		if g := b.am.CopyGate; g != nil {
+			g()
+		}
 		f := w(buf)
 		b.info.Writers.Add(-1)
 		return f
